@@ -250,6 +250,25 @@ atoms = [None, 0, 1, 'a', '', (1, 2), [1], [1, 2], {'k': 1}]
 dicts = [{}, {'a': None}, {'b': None}, {'a': 1}, {'a': 1, 'b': 2}, {'b': 2, 'a': 1}, {'a': None, 'b': None}, {'c': None, 'd': None},
          {'a': [1], 'b': 2}, {'b': 2, 'a': [1]}, {'a': [1], 'b': 3}, {'a': {'x': None}}, {'a': {'y': None}}, {1: 'x'}, {2: 'x'}]
 seqs = [[], [1], [2], [1, 2], [2, 1], [[1], 2], [[1], 3], (1,), (1, 2), [None], [0], [{'a': 1}], [{'a': 2}], [{'b': 1}]]
+import decimal, fractions, datetime
+# numbers of every kind, also those a float cannot tell apart, and scalars next to each other
+numbers = [0, 1, -1, 2 ** 53, 2 ** 53 + 1, 2 ** 64, 2 ** 64 + 1, 10 ** 30, 10 ** 30 + 1, 0.1, 0.30000000000000004, 0.3, 1e300, float('inf'),
+           decimal.Decimal('0.1'), decimal.Decimal('0.10000000000000000001'), decimal.Decimal('1E+30'), fractions.Fraction(1, 3),
+           fractions.Fraction(1, 10), 1 + 2j, 1 + 3j]
+nested_numbers = [[2 ** 53], [2 ** 53 + 1], (10 ** 30,), (10 ** 30 + 1,), {'k': 2 ** 64}, {'k': 2 ** 64 + 1}, [0.3], [0.30000000000000004]]
+scalars = ['a', 'b', b'a', b'b', datetime.date(2020, 1, 1), datetime.date(2020, 1, 2), datetime.datetime(2020, 1, 1, 0, 0, 0),
+           datetime.datetime(2020, 1, 1, 0, 0, 1)]
+for fam in (numbers, nested_numbers, scalars):
+    for x, y in itertools.product(fam, repeat=2):
+        want = (x == y) and (type(x) is type(y) or fam is numbers)
+        try:
+            got = Comparator.is_equal(x, y)
+        except Exception as e:
+            bad.append('is_equal(%r, %r) raised %r' % (x, y, e)); continue
+        if want != bool(got) and not (fam is numbers and x == y):
+            bad.append('is_equal(%r, %r) is %r' % (x, y, got))
+        if x != y and got:
+            bad.append('is_equal(%r, %r) is %r although the values differ: a genuine change would be suppressed' % (x, y, got))
 for fam in (dicts, seqs, atoms):
     for x, y in itertools.product(fam, repeat=2):
         want = (x == y) and type(x) is type(y)
